@@ -183,6 +183,24 @@ def _text_chain(ctx, m, rule='C11.D8'):
                 break
             arg = defs[0].value
             seen += 1
+        # a helper of the same module whose body is one return: read its expression at the call site
+        for _ in range(3):
+            if isinstance(arg, ast.Call) and isinstance(arg.func, ast.Name) and len(arg.args) == 1 and not arg.keywords \
+                    and isinstance(arg.args[0], ast.Name) and arg.args[0].id == param:
+                try:
+                    hf = m.func(hmod, arg.func.id)
+                except AnalysisError:
+                    break
+                hb = body_wo_doc(hf)
+                if len(hb) == 1 and isinstance(hb[0], ast.Return) and hb[0].value is not None and len(hf.args.args) == 1:
+                    import copy as _copy
+                    e2 = _copy.deepcopy(hb[0].value)
+                    for x in ast.walk(e2):
+                        if isinstance(x, ast.Name) and x.id == hf.args.args[0].arg:
+                            x.id = param
+                    arg = e2
+                    continue
+            break
         # the parameter itself must not be reassigned before the call
         rebinds = [st for st in ast.walk(fn) if isinstance(st, (ast.Assign, ast.AugAssign))
                    and any(norm(t) == param for t in (st.targets if isinstance(st, ast.Assign) else [st.target]))]
